@@ -408,6 +408,16 @@ class Facts:
                     if v:
                         self.renames.setdefault(k, {}).update(v)
             for f, j in parsed.items():
+                if not raw:
+                    # straight-line helpers introduced after the reference tree are read at their call sites (rules/inline.py)
+                    from . import inline
+                    try:
+                        sp = inline.inline_crate(j)
+                    except Exception as e:      # the splice is an aid, never a reason to fail a check
+                        sp = []
+                        self.renames.setdefault("inline_error", {})[f] = str(e)[:200]
+                    if sp:
+                        self.renames.setdefault("inlined_helpers", {}).update({"%s <- %s" % (a, b): 1 for a, b in sp})
                 c = Crate(j, os.path.join(dd, f))
                 key = c.name if not c.meta["target_kind"].startswith("test") else c.name + ":" + c.meta["target_kind"]
                 self.crates[key] = c
